@@ -73,6 +73,8 @@ pub struct Profile {
     pub oracle_prices: Vec<u128>,
     pub init_balances: bool,
     pub big_rewards: bool,
+    /// interleave swap / oracle stub faults (fail, garbage prices) with the history
+    pub stub_faults: bool,
 }
 
 pub fn profile(name: &str) -> Profile {
@@ -89,6 +91,7 @@ pub fn profile(name: &str) -> Profile {
         oracle_prices: vec![D, D / 2, 3 * D, D / 1000, 1000 * D],
         init_balances: false,
         big_rewards: false,
+        stub_faults: false,
     };
     match name {
         "mixed" => base,
@@ -145,6 +148,13 @@ pub fn profile(name: &str) -> Profile {
             name: "rewards",
             keeper_rates: vec![50_000_000_000_000_000, 0, D, 500_000_000_000_000_000, 1],
             w: [8, 8, 4, 3, 2, 6, 0, 4, 2, 0, 14, 14, 8, 1, 0, 2, 0, 0],
+            ..base
+        },
+        // swap / oracle stubs failing or returning garbage in the middle of ordinary use
+        "stubs" => Profile {
+            name: "stubs",
+            stub_faults: true,
+            w: [10, 8, 10, 5, 8, 6, 2, 10, 3, 2, 5, 6, 4, 2, 1, 1, 0, 0],
             ..base
         },
         // validators registry changes mid-history
@@ -298,6 +308,18 @@ impl Gen {
     }
 
     pub fn next_op(&mut self, c: &Chain) -> Op {
+        if self.p.stub_faults && self.rng.chance(1, 7) {
+            let okf = !self.rng.chance(1, 2);
+            let price = match self.rng.below(6) {
+                0 => 0,
+                1 => 1,
+                2 => u128::MAX / D,
+                3 => D,
+                4 => 1000 * D,
+                _ => self.rng.log_amount(10 * D),
+            };
+            return if self.rng.chance(1, 2) { Op::Env(EnvOp::Oracle(okf, price)) } else { Op::Env(EnvOp::Swap(okf, price)) };
+        }
         let total: u64 = self.p.w.iter().sum();
         let mut k = self.rng.below(total);
         let mut idx = 0;
